@@ -80,26 +80,29 @@ def cases():
     out = []
     roots = []
     for n in range(0, 4):
-        pool = [('e',), ('g',), ('s', ()), ('c', (('e',),)), ('s', (('e',), ('e',))), ('c', (('s', (('e',), ('e',))), ('e',))),
-                ('s', (('c', (('e',),)), ('s', (('e',),)), ('e',)))]
+        pool = [('e',), ('g',), ('s', ()), ('c', ()), ('c', (('e',),)), ('s', (('e',), ('e',))), ('c', (('s', (('e',), ('e',))), ('e',))),
+                ('s', (('c', (('e',),)), ('s', (('e',),)), ('e',))), ('c', (('g',), ('s', ())))]
         for kids in itertools.product(pool, repeat=n):
             roots.append(('s', kids))
-    roots = roots[:400]
+    roots = roots[:830]
     k = 0
-    for root in roots:
+    DOC = '<xs:annotation><xs:documentation>about this</xs:documentation></xs:annotation>'
+    for ri, root in enumerate(roots):
         for nattr in (0, 2):
             for derived in (False, True):
-                names = []
-                body = _render(root, names)
-                attrs = ''.join(f'<xs:attribute name="a{i}" type="xs:string"/>' for i in range(nattr))
-                want = list(names) + [f'@a{i}' for i in range(nattr)]
-                if derived:
-                    xml = HEAD + f'<xs:complexType name="T"><xs:complexContent><xs:extension base="t:B">{body}{attrs}</xs:extension></xs:complexContent></xs:complexType></xs:schema>'
-                    want = BASE + want
-                else:
-                    xml = HEAD + f'<xs:complexType name="T">{body}{attrs}</xs:complexType></xs:schema>'
-                out.append((f'c{k}', xml, ','.join(want)))
-                k += 1
+                # documentation where XSD allows it: first child of the complexType / of complexContent (only for some trees, to keep the family small)
+                for doc in (('', DOC) if ri < 80 else ('',)):
+                    names = []
+                    body = _render(root, names)
+                    attrs = ''.join(f'<xs:attribute name="a{i}" type="xs:string"/>' for i in range(nattr))
+                    want = list(names) + [f'@a{i}' for i in range(nattr)]
+                    if derived:
+                        xml = HEAD + f'<xs:complexType name="T"><xs:complexContent>{doc}<xs:extension base="t:B">{body}{attrs}</xs:extension></xs:complexContent></xs:complexType></xs:schema>'
+                        want = BASE + want
+                    else:
+                        xml = HEAD + f'<xs:complexType name="T">{doc}{body}{attrs}</xs:complexType></xs:schema>'
+                    out.append((f'c{k}', xml, ','.join(want)))
+                    k += 1
     # derived types without a sequence of their own
     for nattr in (0, 1, 3):
         attrs = ''.join(f'<xs:attribute name="a{i}" type="xs:string"/>' for i in range(nattr))
@@ -115,9 +118,18 @@ def _search(repo):
     with open(path, 'w', encoding='utf-8') as f:
         for cid, xml, want in cs:
             f.write(f'{cid}\t{xml}\n')
-    rc, outp = run_test_module(MODULE.replace('@CASES@', path), 'verif_replay_x::flatten', repo, host_file='zeep-lib/src/reader.rs')
+    rc, outp = run_test_module(MODULE.replace('@CASES@', path), 'verif_replay_x::flatten', repo, host_file='zeep-lib/src/reader.rs', timeout=240)
     want = {cid: (xml, w) for cid, xml, w in cs}
     res = {'trees_read_by_real_code': 0, 'anomalies': [], 'n': 0}
+    seen = set(re.findall(r'X\|(c\d+)\|', outp))
+    if rc == 124 or 'X|done|' not in outp:
+        # the harness did not finish: the first tree without a result line is the one it hangs (or aborts) on
+        for cid, xml, w in cs:
+            if cid not in seen:
+                res['n'] += 1
+                res['anomalies'].append({'schema': xml, 'members_of_T_observed': 'HANG' if rc == 124 else 'ABORT', 'members_declared': w, 'derived': 'complexContent' in xml})
+                res['trees_read_by_real_code'] = len(seen)
+                break
     for line in outp.splitlines():
         m = re.match(r'^(?:test \S+ \.\.\. )?X\|(\w+)\|(.*)$', line)
         if not m:
